@@ -297,3 +297,48 @@ ENTRIES += [
     V("C14-v-box-single-all", "C14", (SB, "return jnp.all(x >= self.low) & jnp.all(x <= self.high)", "return jnp.all((self.low <= x) & (x <= self.high))")),
     V("C14-v-md-two-alls", "C14", (SMD, "return jnp.all((x >= 0) & (x < jnp.asarray(self.nvec)))", "return jnp.all(x < jnp.asarray(self.nvec)) & jnp.all(0 <= x)")),
 ]
+
+DB = "lerax/distribution/base_distribution.py"
+DC = "lerax/distribution/categorical.py"
+DBE = "lerax/distribution/bernoulli.py"
+DMC = "lerax/distribution/multi_categorical.py"
+DSN = "lerax/distribution/squashed_normal.py"
+DSM = "lerax/distribution/squashed_multivariate_normal.py"
+PA = "lerax/policy/actor.py"
+PQ = "lerax/policy/q/base_q.py"
+PS = "lerax/policy/sac/mlp.py"
+
+ENTRIES += [
+    # ---------------------------------------------------------------- C15
+    M("C15-prob-logprob", "C15", "C15.1", (DB, "        return self.distribution.prob(value)", "        return self.distribution.log_prob(value)")),
+    M("C15-mode-mean", "C15", "C15.1", (DB, "    def mode(self) -> SampleType:\n        return self.distribution.mode()\n\n    def sample_and_log_prob(", "    def mode(self) -> SampleType:\n        return self.distribution.mean()\n\n    def sample_and_log_prob(")),
+    M("C15-mc-mean-components", "C15", "C15.2", (DMC, "        return jnp.sum(jnp.stack(logps, axis=-1), axis=-1)", "        return jnp.mean(jnp.stack(logps, axis=-1), axis=-1)")),
+    M("C15-mc-value0", "C15", "C15.2", (DMC, "d.log_prob(value_arr[..., i]) for i, d in enumerate(self.distribution)", "d.log_prob(value_arr[..., 0]) for i, d in enumerate(self.distribution)")),
+    M("C15-mc-entropy-first", "C15", "C15.2", (DMC, "        return jnp.sum(jnp.stack(ents, axis=-1), axis=-1)", "        return jnp.stack(ents, axis=-1)[..., 0]")),
+    M("C15-mc-salp-two-calls", "C15", "C15.2", (DMC, "        samples = jnp.stack(tuple(p[0] for p in pairs), axis=-1)", "        samples = jnp.stack(tuple(d.sample(k) for d, k in zip(self.distribution, keys)), axis=-1)")),
+    M("C15-mc-split-full", "C15", "C15.2", (DMC, "split_idx = jnp.cumsum(jnp.asarray(action_dims[:-1]))", "split_idx = jnp.cumsum(jnp.asarray(action_dims))")),
+    M("C15-mc-split-axis0", "C15", "C15.2", (DMC, "pieces = tuple(jnp.split(arr, split_idx, axis=-1))", "pieces = tuple(jnp.split(arr, split_idx, axis=0))")),
+    M("C15-scale-sign", "C15", "C15.3", (DSN, "affine = bijectors.ScalarAffine(scale=(high - low), shift=low)", "affine = bijectors.ScalarAffine(scale=(low - high), shift=low)")),
+    M("C15-chain-order", "C15", "C15.3", (DSN, "bijector = bijectors.Chain((affine, sigmoid))", "bijector = bijectors.Chain((sigmoid, affine))")),
+    M("C15-block-ndims0", "C15", "C15.3", (DSM, "bijector = bijectors.Block(chain, ndims=1)", "bijector = bijectors.Block(chain, ndims=0)")),
+    M("C15-shift-high", "C15", "C15.3", (DSM, "affine = bijectors.ScalarAffine(scale=(high - low), shift=low)", "affine = bijectors.ScalarAffine(scale=(high - low), shift=high)")),
+    M("C15-mode-fallback-nobijector", "C15", "C15.4", (DB, "            return self.distribution.bijector.forward(\n                self.distribution.distribution.mode()\n            )", "            return self.distribution.distribution.mode()")),
+    V("C15-v-mc-sum-method", "C15", (DMC, "        return jnp.sum(jnp.stack(ents, axis=-1), axis=-1)", "        return jnp.stack(ents, axis=-1).sum(axis=-1)")),
+    # ---------------------------------------------------------------- C16
+    M("C16-mask-inverted", "C16", "C16.1", (DC, "masked_logits = jnp.where(mask, self.logits, -jnp.inf)", "masked_logits = jnp.where(mask, -jnp.inf, self.logits)")),
+    M("C16-mask-plus-inf", "C16", "C16.1", (DBE, "masked_logits = jnp.where(mask, self.logits, -jnp.inf)", "masked_logits = jnp.where(mask, self.logits, jnp.inf)")),
+    M("C16-mask-zero", "C16", "C16.1", (DC, "masked_logits = jnp.where(mask, self.logits, -jnp.inf)", "masked_logits = jnp.where(mask, self.logits, 0.0)")),
+    M("C16-mc-mask-big-negative", "C16", "C16.1", (DMC, "jnp.where(m, d.logits, -jnp.inf)", "jnp.where(m, d.logits, -1e3)")),
+    M("C16-mc-mask-dims", "C16", "C16.1", (DMC, "return MultiCategorical(logits=masked_logits, action_dims=self.action_dims)", "return MultiCategorical(logits=masked_logits, action_dims=self.action_dims[::-1])")),
+    M("C16-layer-ignores-mask", "C16", "C16.2", (PA, "            return cast(AbstractMaskableDistribution[ActType, MaskType], dist).mask(\n                action_mask\n            )", "            return cast(AbstractMaskableDistribution[ActType, MaskType], dist)")),
+    M("C16-evaluate-nomask", ["C16", "C04"], ["C16.2", "C04.9"], (MLP, "        action_dist = self.action_head(features, action_mask=action_mask)\n        value = self.value_head(features)\n        log_prob = action_dist.log_prob(action)", "        action_dist = self.action_head(features)\n        value = self.value_head(features)\n        log_prob = action_dist.log_prob(action)")),
+    M("C16-call-mode-sample-swapped", "C16", "C16.4", (MLP, "        if key is None:\n            action = action_dist.mode()\n        else:\n            action = action_dist.sample(key)", "        if key is not None:\n            action = action_dist.mode()\n        else:\n            action = action_dist.sample(key)")),
+    M("C16-sac-mode-mean", "C16", "C16.4", (PS, "        if key is None:\n            action = dist.mode()", "        if key is None:\n            action = dist.mean()")),
+    M("C16-eps-gt", "C16", "C16.5", (PQ, "jr.uniform(epsilon_key, shape=()) < self.epsilon,", "jr.uniform(epsilon_key, shape=()) > self.epsilon,")),
+    M("C16-eps-mask-after-mode", "C16", "C16.5", (PQ, "                lambda: dist.sample(action_key),", "                lambda: Categorical(logits=q_vals).sample(action_key),")),
+    M("C16-eps-branches-swapped", "C16", "C16.5", (PQ, "                lambda: dist.sample(action_key),\n                lambda: dist.mode(),", "                lambda: dist.mode(),\n                lambda: dist.sample(action_key),")),
+    M("C16-greedy-ignores-mask", "C16", "C16.5", (PQ, "        if key is None or self.epsilon <= 0.0:\n            return state, dist.mode()", "        if key is None or self.epsilon <= 0.0:\n            return state, Categorical(logits=q_vals).mode()")),
+    M("C16-registry-nonmaskable", "C16", "C16.3", (PA, "        return Categorical(logits=self.mapping(inputs))", "        return Normal(loc=self.mapping(inputs), scale=jnp.ones(()))")),
+    V("C16-v-eps-flip", "C16", (PQ, "jr.uniform(epsilon_key, shape=()) < self.epsilon,", "self.epsilon > jr.uniform(epsilon_key, shape=()),")),
+    V("C16-v-select", "C16", (DC, "masked_logits = jnp.where(mask, self.logits, -jnp.inf)", "masked_logits = jnp.where(~mask, -jnp.inf, self.logits)")),
+]
